@@ -187,7 +187,8 @@ class AbstractAxis(AbstractHasMetadata):
         return self.values.dtype
 
     def is_numeric(self):
-        return is_numeric(self.values)
+        # (from the dtype property: on disk, the values of a str axis are a netCDF4 variable whose dtype is the python type str)
+        return np.dtype(self.dtype).kind in ('i', 'f')
 
 class AbstractAxes(object):
     _Axis = AbstractAxis
